@@ -528,18 +528,20 @@ func MergeExecResult(rs []*mysql.Result) (*mysql.Result, error) {
 func MergeSelectResult(p *SelectPlan, stmt *ast.SelectStmt, rs []*mysql.Result) (*mysql.Result, error) {
 	ret := mergeMultiResultSet(rs)
 
-	if p.distinct {
-		if err := removeDistinctRowInResult(p, ret); err != nil {
-			return nil, err
-		}
-	}
-
 	if stmt.GroupBy != nil {
 		if err := buildSelectGroupByResult(p, ret); err != nil {
 			return nil, err
 		}
 	} else {
 		if err := buildSelectOnlyResult(p, ret); err != nil {
+			return nil, err
+		}
+	}
+
+	// DISTINCT applies to the final rows: equal partial rows of one group coming
+	// from different shards must be merged, not dropped
+	if p.distinct {
+		if err := removeDistinctRowInResult(p, ret); err != nil {
 			return nil, err
 		}
 	}
